@@ -62,15 +62,19 @@ CHECKS["C04"] = dict(_tm_common, **{
                   "the recorded trace is validated by TLC against TM.tla.",
     "level_note": "Trusted: TLC, the coordinator stand-in, the scenario interpreter in harness/cmd/tm. 'No reply' is "
                   "represented by its observable consequence at this layer (an error from SendSyncRequest); the real "
-                  "20 s timeout is C14's. Bounds: one scope, <=4 transport errors per loop, budgets 0..3.",
+                  "20 s timeout is C14's. Bounds: one scope, <=4 transport errors per loop, budgets 0..3 "
+                  "(thorough: all 25 pairs over 0..4).",
     "technique": "TLA+ spec + TLC exhaustive design check; TLC-enumerated fault/cancellation scenarios replayed on the "
                  "real WithGlobalTx; TLC trace validation",
     "mc": [("TM_MC", "TM_MC_C04.cfg", {"workers": 4, "env": {"MAXRETRYC": str(c), "MAXRETRYR": str(r)}})
            for c, r in ((0, 2), (2, 0), (1, 3), (3, 1), (2, 2), (1, 1))],
     "legs": [{
         "name": "tm", "driver": "tm",
-        "gen": [("TM_MC", "TM_Gen_C04.cfg", {"MAXRETRYC": str(c), "MAXRETRYR": str(r)})
-                for c, r in ((0, 2), (2, 0), (1, 3), (3, 1), (2, 2), (1, 1))],
+        "gen_quick": [("TM_MC", "TM_Gen_C04.cfg", {"MAXRETRYC": str(c), "MAXRETRYR": str(r)})
+                      for c, r in ((0, 2), (2, 0), (1, 3), (3, 1), (2, 2), (1, 1))],
+        # thorough: every pair of budgets in 0..4 x 0..4
+        "gen_thorough": [("TM_MC", "TM_Gen_C04.cfg", {"MAXRETRYC": str(c), "MAXRETRYR": str(r)})
+                         for c in range(5) for r in range(5)],
         "trace": ("TM_Trace", "TM_Trace.cfg"),
     }],
 })
@@ -102,7 +106,8 @@ AT_TB = TC_TB + ["memsql, the in-memory MySQL stand-in (harness/memsql): value k
                  "the abstract-row projection of concrete tables in harness/atlab"]
 
 
-def _atrb_legs(gen_quick, gen_thorough, variants_quick, variants_thorough):
+def _atrb_legs(gen_quick, gen_thorough, variants_quick, variants_thorough, extra=()):
+    """extra: (leg name, schema, generator cfg) triples - legs on schemas that are not in the rotation"""
     def legs(tier):
         out = []
         for name, env in (variants_thorough if tier == "thorough" else variants_quick):
@@ -110,17 +115,18 @@ def _atrb_legs(gen_quick, gen_thorough, variants_quick, variants_thorough):
                 "name": "atrb-" + name, "driver": "atrb", "env": env,
                 "gen": [("ATRollback_MC", g) for g in (gen_thorough if tier == "thorough" else gen_quick)],
                 "trace": ("ATRollback_Trace", "ATRollback_Trace.cfg"),
-                "shards": 4, "gen_timeout": 3000,
+                "shards": 8 if tier == "thorough" else 4, "gen_timeout": 3000,
             })
         # written part = one nullable column (schema t_nullw): statements that change nothing but that column, to
         # and from NULL, with and without a foreign write (StmtW = {0, 1}, initial rows NULL / 'v1')
-        for name, env in (variants_thorough if tier == "thorough" else variants_quick)[:2]:
-            out.append({
-                "name": "atrb-null-" + name, "driver": "atrb", "env": dict(env, SCHEMA="t_nullw"),
-                "gen": [("ATRollback_MC", "ATRollback_Gen_C01N.cfg")],
-                "trace": ("ATRollback_Trace", "ATRollback_Trace.cfg"),
-                "shards": 2, "gen_timeout": 3000,
-            })
+        for lname, schema, cfg in extra:
+            for name, env in (variants_thorough if tier == "thorough" else variants_quick)[:2]:
+                out.append({
+                    "name": "atrb-%s-%s" % (lname, name), "driver": "atrb", "env": dict(env, SCHEMA=schema),
+                    "gen": [("ATRollback_MC", cfg)],
+                    "trace": ("ATRollback_Trace", "ATRollback_Trace.cfg"),
+                    "shards": 2, "gen_timeout": 3000,
+                })
         return out
     return legs
 
@@ -158,8 +164,9 @@ CHECKS["C01"] = dict(_at_common, **{
                   "{int, nullable, composite, varchar, auto-increment, many-types}.",
     "technique": "TLA+ spec + TLC design check; TLC-enumerated global transactions replayed through the real AT proxy "
                  "over an in-memory MySQL; full-state trace validation by TLC",
-    "legs_fn": _atrb_legs(["ATRollback_Gen_C01.cfg"], ["ATRollback_Gen_C01.cfg", "ATRollback_Gen_C01T.cfg"],
-                          [_OC1, _OC0], [_OC1, _OC0, _OC1P, _OC0P, _NV]),
+    "legs_fn": _atrb_legs(["ATRollback_Gen_C01.cfg", "ATRollback_Gen_C01S.cfg"], ["ATRollback_Gen_C01.cfg", "ATRollback_Gen_C01T.cfg"],
+                          [_OC1, _OC0], [_OC1, _OC0, _OC1P, _OC0P, _NV],
+                          extra=[("null", "t_nullw", "ATRollback_Gen_C01N.cfg")]),
 })
 
 CHECKS["C09"] = dict(_at_common, **{
@@ -168,10 +175,13 @@ CHECKS["C09"] = dict(_at_common, **{
                   "statement x every foreign write; the trace specification requires: dirty row => nothing changes and "
                   "the status is not 'rollbacked'; row equals the before image => success without writing; row equals "
                   "the after image => restored (a statement with rows of both kinds may also be refused as a whole).",
-    "level_note": "As C01. Bounds: 1 branch, 1 statement, 1 foreign write.",
+    "level_note": "As C01. Bounds: 1 branch, 1 statement, 1 foreign write (thorough: also 2 branches over initial rows that differ).",
     "technique": "TLA+ spec + TLC design check; TLC-enumerated (branch, foreign write) scenarios replayed on the real "
                  "rollback path; full-state trace validation by TLC",
-    "legs_fn": _atrb_legs(["ATRollback_Gen_C09.cfg"], ["ATRollback_Gen_C09.cfg"], [_OC1, _OC0], [_OC1, _OC0, _OC1P]),
+    "legs_fn": _atrb_legs(["ATRollback_Gen_C09.cfg"], ["ATRollback_Gen_C09.cfg", "ATRollback_Gen_C09T.cfg"],
+                          [_OC1, _OC0], [_OC1, _OC0, _OC1P],
+                          # written part = a VARCHAR holding different texts of one number / a nullable column
+                          extra=[("num", "t_numw", "ATRollback_Gen_C09.cfg"), ("null", "t_nullw", "ATRollback_Gen_C09.cfg")]),
 })
 
 CHECKS["C10"] = dict(_at_common, **{
@@ -181,10 +191,11 @@ CHECKS["C10"] = dict(_at_common, **{
                   "The trace specification requires: a failed attempt changes neither table nor undo log and is not "
                   "reported 'rollbacked'; repeats answer 'rollbacked' without touching the table and leave the marker; "
                   "the overtaken phase one fails, commits nothing, marker present.",
-    "level_note": "As C01. Bounds: 1 branch, 1 statement, <=3 deliveries, one fault per scenario.",
+    "level_note": "As C01. Bounds: 1 branch, 1 statement, <=3 deliveries, one fault per scenario (thorough: also 2 statements per branch, fault positions 1..10).",
     "technique": "TLA+ spec + TLC design check; TLC-enumerated fault positions and delivery sequences replayed on the "
                  "real rollback path with injected database faults; full-state trace validation by TLC",
-    "legs_fn": _atrb_legs(["ATRollback_Gen_C10.cfg"], ["ATRollback_Gen_C10.cfg"], [_OC1, _OC0], [_OC1, _OC0, _OC1P]),
+    "legs_fn": _atrb_legs(["ATRollback_Gen_C10.cfg"], ["ATRollback_Gen_C10.cfg", "ATRollback_Gen_C10T.cfg"],
+                          [_OC1, _OC0], [_OC1, _OC0, _OC1P]),
 })
 
 CHECKS["C02"] = {
@@ -208,7 +219,8 @@ CHECKS["C02"] = {
     "mc": [("ATPhaseOne_MC", "ATPhaseOne_MC.cfg", {"workers": 4})],
     "legs": [{
         "name": "atp1", "driver": "atp1",
-        "gen": [("ATPhaseOne_Gen", "ATPhaseOne_Gen.cfg")],
+        "gen_quick": [("ATPhaseOne_Gen", "ATPhaseOne_Gen.cfg")],
+        "gen_thorough": [("ATPhaseOne_Gen", "ATPhaseOne_GenT.cfg")],
         "trace": ("ATPhaseOne_Trace", "ATPhaseOne_Trace.cfg"),
         "shards": 12,
     }],
